@@ -273,27 +273,35 @@ def run(ctx):
                     newv = ix.inline(sym.field(v, "open_interest_notional"))
             if newv is None:
                 continue  # this path leaves the counter alone
-            facts = guards._own_facts(ix, p, {})
-            ok = False
-            for (at, o) in facts:
-                if o is True and tag(at) == "unwrap" and tag(kids(at)[0]) == "call" and payload(kids(at)[0])[0] == "cw_controllers::Hooks::query_hook":
-                    ok = True
-                a2, o2 = at, o
-                while tag(a2) == "op" and payload(a2)[0] == "not" and o2 in (True, False):
-                    a2, o2 = kids(a2)[0], (not o2)
-                if tag(a2) == "call" and ((payload(a2)[0].endswith("Integer::is_positive") and o2 is False) or
-                                          (payload(a2)[0].endswith("Integer::is_negative") and o2 is True)):
-                    ok = True  # not an increase
-                if tag(at) == "op":
-                    nm = payload(at)[0]
-                    ks = kids(at)
-                    if nm == "is_zero" and o is True and cap_field(ks[0], "open_interest_notional_cap"):
-                        ok = True
-                    if nm in ("gt", "le") and len(ks) == 2 and ((nm == "gt" and o is False) or (nm == "le" and o is True)):
-                        l, r = ks
-                        lv = ix.inline(sym.field(ix.inline(l), "value"))
-                        if is_pos_cap(r, "open_interest_notional_cap") and (lv == newv or ix.inline(l) == newv):
-                            ok = True
+            def cap_respected(facts, newv=newv):
+                """one of the accepted reasons holds among these facts (the writer's own, or those of a helper it relies on)"""
+                for (at, o) in facts:
+                    if o is True and tag(at) == "unwrap" and tag(kids(at)[0]) == "call" and payload(kids(at)[0])[0] == "cw_controllers::Hooks::query_hook":
+                        return True
+                    a2, o2 = at, o
+                    while tag(a2) == "op" and payload(a2)[0] == "not" and o2 in (True, False):
+                        a2, o2 = kids(a2)[0], (not o2)
+                    if tag(a2) == "call" and ((payload(a2)[0].endswith("Integer::is_positive") and o2 is False) or
+                                              (payload(a2)[0].endswith("Integer::is_negative") and o2 is True)):
+                        return True  # not an increase
+                    if tag(a2) == "unwrap" and tag(kids(a2)[0]) == "call" and payload(kids(a2)[0])[0] == "cw_controllers::Hooks::query_hook" and o2 is True:
+                        return True
+                    if tag(at) == "op":
+                        nm = payload(at)[0]
+                        ks = kids(at)
+                        if nm == "is_zero" and o is True and cap_field(ks[0], "open_interest_notional_cap"):
+                            return True
+                        if nm in ("gt", "le") and len(ks) == 2 and ((nm == "gt" and o is False) or (nm == "le" and o is True)):
+                            l, r = ks
+                            li = ix.inline(l)
+                            lv = ix.inline(sym.field(li, "value"))
+                            # Integer comparison with +cap, or the same comparison on the magnitudes (the value is floored at zero)
+                            if is_pos_cap(r, "open_interest_notional_cap") and (lv == newv or li == newv):
+                                return True
+                            if cap_field(r, "open_interest_notional_cap") and li == newv:
+                                return True
+                return False
+            ok = guards.path_satisfies(ix, p, cap_respected, None)
             if not ok:
                 bad = bad or (p, newv)
         ctx.inst("R20.5", "open-interest-writer:%s" % short_fn(f), bad is None, f.where(),
